@@ -240,7 +240,15 @@ class Interp:
                             hp, i = r.split(".")
                             terms.append((self.h[int(hp)].param_mapping.in_params[int(i)], int(c)))
                     angle = terms[0][0] if f[4] == "1" else dict(terms)
-                    getattr(o, f"add_Parametric{KINDS[int(f[2])][0]}_gate")(*qs, angle)
+                    try:
+                        getattr(o, f"add_Parametric{KINDS[int(f[2])][0]}_gate")(*qs, angle)
+                    finally:
+                        if isinstance(angle, dict) and not self.copying:
+                            # the caller re-uses its scratch dict after the call: the circuit must have taken a snapshot
+                            # (the copying oracle, i.e. value semantics, cannot see this at all)
+                            for k_ in list(angle):
+                                angle[k_] = 7.0
+                            angle.clear()
                 elif name == "addParams":
                     o.add_parameters(*[f"p{i}" for i in range(int(f[2]))])
                 else:
